@@ -245,7 +245,7 @@ fn run<G: Group>(sc: &Scenario, st: &mut RunStats) -> Vec<Violation> {
     // challenges — or the batch must be refused before any challenge is drawn
     if sc.cfg.m >= 2 {
         let ccfg = Config { bits: sc.cfg.bits, m: 1, cap: 1, ext: sc.cfg.ext };
-        let cwit = WitnessSpec { values: vec![0], promises: vec![None], blind_seed: sc.fault_seed ^ 0xC04, seed_nonce: None };
+        let cwit = WitnessSpec { values: vec![0], promises: vec![None], blind_seed: sc.fault_seed ^ 0xC04, seed_nonce: None, zero_blind: vec![] };
         let cctx = Context { label: 7, extra: None };
         let cb = build::<G>(&ccfg, &cwit);
         if let Ok(Ok(cp)) = prove_mode::<G>(&cctx, &cb.statement, &cb.witness, &RngMode::Healthy(sc.rng_seed ^ 2)).0 {
